@@ -86,6 +86,16 @@ Section Good.
           end
     end.
 
+  (* one-step unfoldings *)
+  Lemma good_ReadNow o lin owe nfn k : good o lin owe nfn (ReadNow k) = good o lin owe nfn (k NOW).
+  Proof. reflexivity. Qed.
+  Lemma good_ReadDflt o lin owe nfn k : good o lin owe nfn (ReadDflt k) = good o lin owe nfn (k DFLT).
+  Proof. reflexivity. Qed.
+  Lemma good_ReadCb o lin owe nfn k : good o lin owe nfn (ReadCb k) = good o lin owe nfn (k CB).
+  Proof. reflexivity. Qed.
+  Lemma good_Ret o lin owe nfn r : good o lin owe nfn (Ret r) = (lin = Some r /\ owe = [] /\ fn_ok o r nfn).
+  Proof. reflexivity. Qed.
+
   (* ---------------- facts about the frozen settings ---------------- *)
 
   Lemma spec_next_mk o L : conc_ok o ->
@@ -111,15 +121,15 @@ Section Good.
     conc_ok o -> is_remover o = false ->
     match mo with CSnapshot => False | _ => True end ->
     (forall r', k r' = Ret (ret r')) ->
-    (forall m s, R eqd m s ->
-       let '(m', r, evs) := run_seq eqd (MapCall mo k) m in
-       spec_ok eqd zero s o r /\ R eqd m' (spec_next eqd zero s o)) ->
+    (forall P L, Rm P L ->
+       let '(m', r, evs) := run_seq eqd (MapCall mo k) (mk P) in
+       spec_ok eqd zero (mk L) o r /\ R eqd m' (spec_next eqd zero (mk L) o)) ->
     (forall P, let '(P', r') := map_step eqd P (to_mop env0 mo) in
                fn_ok o (ret r') (length (fn_events mo r'))) ->
     good o None [] 0 (MapCall mo k).
   Proof.
     intros Hc Hrem Hmo Hk Hsim Hfn. cbn [good]. intros P L HR.
-    specialize (Hsim (mk P) (mk L) HR). specialize (Hfn P).
+    specialize (Hsim P L HR). specialize (Hfn P).
     cbn [run_seq] in Hsim. rewrite st_env_mk in Hsim. cbn [st_map mk] in Hsim.
     destruct mo; try contradiction;
       (destruct (map_step eqd P (to_mop env0 _)) as [P' r'];
